@@ -74,6 +74,11 @@ def _once(case, acc, tree, labels):
 
     ctx = "start=%s stop=%s hide=%s maxlevel=%s" % (case["start"], case["stop"], case["hide"], maxlevel)
     kw = dict(filter_=filter_, stop=stop, maxlevel=maxlevel)
+    # an iteration abandoned after its first items must not influence later ones
+    for cls in (PreOrderIter, PostOrderIter, LevelOrderIter, LevelOrderGroupIter, ZigZagGroupIter):
+        stale = cls(start, **kw)
+        next(stale, None)
+        next(stale, None)
     got = list(PreOrderIter(start, **kw))
     if not refs.same_seq(got, exp_pre):
         raise Violation("preorder", "%s expected %s got %s" % (ctx, lab(exp_pre), lab(got)))
@@ -158,7 +163,7 @@ def _enum_cases(max_nodes, index, count, min_nodes=1, root_only=False):
                             "hide": hide,
                             "maxlevel": maxlevel,
                             "none_when_empty": bool(variant % 2),
-                            "cls": ("Node", "SlotLM", "EqNode", "FalsyNode", "Node", "LenNode", "Node")[variant % 7],
+                            "cls": ("Node", "SlotLM", "EqNode", "FalsyNode", "Node", "LenNode", "Node", "ListNode", "TupleNode", "Node", "Node")[variant % 11],
                         }
 
 
